@@ -46,7 +46,9 @@ def collect(tag):
             needs = ' '.join(open(d + '/NEEDS.txt').read().split())[:600]
         if not sh('git -C %s diff --name-only -- oslo_policy' % d).strip():
             print(sid, 'NO DIFF'); continue
-        print(sh('%s/tools/seeded.py collect %s %s %s %s' % (V, d, sid, pid, json.dumps(needs))).strip())
+        print(subprocess.run([V + '/tools/seeded.py', 'collect', d, sid, pid,
+                              needs], text=True, stdout=subprocess.PIPE,
+                             stderr=subprocess.STDOUT).stdout.strip())
 
 
 def verify(tag):
